@@ -85,6 +85,29 @@ def ref_eos(kind, v, E0, B0, Bp, V0):
 KINDS = ["vinet", "birch_murnaghan", "murnaghan"]
 
 
+def ref_fit(kind, vs, en):
+    """the documented algorithm, independently of eos.py: unconstrained Levenberg-Marquardt (scipy.optimize.leastsq) from the
+    documented starting point [E(mid), 1.0, 4.0, V(mid)].  Used only to tell a numerical non-convergence of that algorithm
+    (exact data, yet a spurious stationary point — e.g. Vinet at B0' -> 1) from a wrong implementation."""
+    from scipy.optimize import leastsq
+
+    vs = np.asarray(vs, dtype="double")
+    en = np.asarray(en, dtype="double")
+    try:
+        with warnings.catch_warnings():
+            warnings.simplefilter("ignore")
+            with np.errstate(all="ignore"):
+                r = leastsq(lambda p_: ref_eos(kind, vs, *p_) - en, [en[len(en) // 2], 1.0, 4.0, vs[len(vs) // 2]], full_output=1)
+        return np.array(r[0], dtype="double")
+    except Exception:
+        return None
+
+
+def same_as_reference(kind, vs, en, fitted):
+    r = ref_fit(kind, vs, en)
+    return r is not None and np.all(np.isfinite(r)) and bool(np.all(np.abs(np.asarray(fitted, dtype="double") - r) <= 1e-6 * np.maximum(1.0, np.abs(r))))
+
+
 def rand_params(rng):
     V0 = rng.uniform(12.0, 180.0)
     B0 = rng.uniform(0.15, 1.8)  # eV/A^3  (24 .. 290 GPa)
@@ -93,8 +116,10 @@ def rand_params(rng):
     return E0, B0, Bp, V0
 
 
-def gen_qha_case(rng, thorough):
-    kind = rng.choice(KINDS)
+def gen_qha_case(rng, thorough, kind=None, outside=None):
+    """outside: None | 'below' | 'above' — the equilibrium volume at every temperature lies below / above the sampled volume grid
+    by 2-10 % of the grid width (the free energies are still exactly an EOS, so an unconstrained least-squares fit recovers it)"""
+    kind = rng.choice(KINDS) if kind is None else kind
     E00, B00, Bp0, V00 = rand_params(rng)
     nt = rng.randint(6, 16 if thorough else 12)
     dT = rng.choice([5.0, 10.0, 20.0, 50.0])
@@ -105,6 +130,8 @@ def gen_qha_case(rng, thorough):
         temps = np.sort(temps + np.array([rng.uniform(-0.3, 0.3) * dT for _ in range(nt)]))
         temps[0] = max(temps[0], 0.0)
     a1, a2 = rng.uniform(5e-6, 6e-5), rng.uniform(1e-9, 2e-8)
+    if outside is not None:
+        a1, a2 = rng.uniform(2e-6, 8e-6), rng.uniform(1e-10, 1e-9)
     g1 = rng.uniform(2e-7, 3e-6)
     b1 = rng.uniform(2e-5, 3e-4)
     c1 = rng.uniform(-2e-4, 2e-4)
@@ -113,12 +140,21 @@ def gen_qha_case(rng, thorough):
     nv = rng.randint(5, 15)
     lo, hi = rng.uniform(0.88, 0.95), rng.uniform(1.06, 1.14)
     vols = V00 * np.linspace(lo, hi, nv)
+    if outside is not None:
+        width = (hi - lo) * V00
+        margin = rng.uniform(0.02, 0.10) * width
+        if outside == "below":  # V0(T) below the grid
+            vols = np.linspace(pars["V0"].max() + margin, pars["V0"].max() + margin + width, nv)
+        else:
+            vols = np.linspace(pars["V0"].min() - margin - width, pars["V0"].min() - margin, nv)
     if rng.random() < 0.3:
         vols = np.sort(vols * (1 + np.array([rng.uniform(-0.004, 0.004) for _ in range(nv)])))
     pressure = rng.choice([None, None, 0.0, rng.uniform(0.5, 8.0), -rng.uniform(0.2, 2.0)])
     shape = rng.choice(["V", "TV"])
     # electronic part: itself an EOS (PhonopyQHA also fits it alone), optionally with T-dependent parameters
     eE0, eB0, eBp, eV0 = E00 + rng.uniform(-0.5, 0.5), B00 * rng.uniform(0.9, 1.1), Bp0 + rng.uniform(-0.3, 0.3), V00 * rng.uniform(0.98, 1.01)
+    if outside is not None:
+        eV0 = V00 * rng.uniform(0.998, 1.002)
     if shape == "V":
         el = ref_eos(kind, vols, eE0, eB0, eBp, eV0)
     else:
@@ -143,7 +179,7 @@ def gen_qha_case(rng, thorough):
     ent = np.array([[(t / (t + 90.0)) * (1.3 * q[0] + 0.4 * (v - vm) + 0.01 * (v - vm) ** 2) for v in vols] for t in temps])
     dV0dT = V00 * (a1 + 2 * a2 * tp)
     return dict(kind=kind, temps=temps, pars=pars, vols=vols, pressure=pressure, shape=shape, el=el, tmax=tmax, tmax_sel=tmax_sel, cv=cv, ent=ent,
-                q=q, vm=vm, dV0dT=dV0dT)
+                q=q, vm=vm, dV0dT=dV0dT, outside=outside, el_params=(eE0, eB0, eBp, eV0))
 
 
 def build_inputs(c, units):
@@ -265,11 +301,73 @@ def main(run):
             run.violation(site, "bulk-modulus-derivative", "dB/dP at V0 = %r, B0' = %r" % (bp_num, Bp), case)
         run.count("oracle-eos", section="oracle")
 
+    # ---------------------------------------------------------------- fit_to_eos / BulkModulus on exact data, equilibrium inside and OUTSIDE the volume grid
+    from phonopy.qha.core import BulkModulus
+
+    nfit = 60 if thorough else 18
+    for n in range(nfit):
+        kind = KINDS[n % 3]
+        side = ["inside", "below", "above"][(n // 3) % 3]
+        E0, B0, Bp, V0 = rand_params(rng)
+        nv = rng.randint(5, 15)
+        width = rng.uniform(0.15, 0.25) * V0
+        margin = rng.uniform(0.02, 0.10) * width
+        if side == "inside":
+            vs = np.linspace(V0 - 0.45 * width, V0 + 0.55 * width, nv)
+        elif side == "below":
+            vs = np.linspace(V0 + margin, V0 + margin + width, nv)
+        else:
+            vs = np.linspace(V0 - margin - width, V0 - margin, nv)
+        en = ref_eos(kind, vs, E0, B0, Bp, V0)
+        case = dict(eos=kind, E0=E0, B0=B0, Bp=Bp, V0=V0, volumes=vs.tolist(), equilibrium_volume=side)
+        fe_, fb_, fbp_, fv_ = EOS.fit_to_eos(vs, en, EOS.get_eos(kind))
+        bm = BulkModulus(vs, en, eos=kind)
+        for site, (pe, pb, pbp, pv) in (("phonopy.qha.eos.fit_to_eos", (fe_, fb_, fbp_, fv_)), ("BulkModulus", bm.get_parameters())):
+            if abs(pv / V0 - 1) > 1e-9 or abs(pe - E0) > 1e-9 * max(1.0, abs(E0)) or abs(pb / B0 - 1) > 1e-7 or abs(pbp - Bp) > 1e-6:
+                if same_as_reference(kind, vs, en, (pe, pb, pbp, pv)):
+                    # the unchanged algorithm (unconstrained leastsq from the documented start) stops at a spurious
+                    # stationary point on exact data: a genuine, recorded limitation (known_findings.json), matched
+                    # by "the independent reference run of that algorithm gives the implementation's answer"
+                    run.count("leastsq itself does not converge to the exact parameters (reference algorithm agrees with the implementation)", section="oracle")
+                    run.violation("EOSFit.fit (scipy.optimize.leastsq)", "exact-data-spurious-stationary-point",
+                                  "fitted (E0, B0, B0', V0) = (%r, %r, %r, %r) for exact %s data with (%r, %r, %r, %r); an independent leastsq run from the documented start gives the same" % (pe, pb, pbp, pv, kind, E0, B0, Bp, V0), case)
+                    continue
+                run.violation(site, "recovery" + ("" if side == "inside" else "-outside-grid"),
+                              "fitted (E0, B0, B0', V0) = (%r, %r, %r, %r) for exact %s data with (%r, %r, %r, %r)" % (pe, pb, pbp, pv, kind, E0, B0, Bp, V0), case)
+        run.case(("fit", kind, side, E0, B0, Bp, V0, vs.tobytes()), nontrivial=True)
+        run.count("fit " + side)
+        run.count("oracle-fit", section="oracle")
+    # Murnaghan under a physical pressure: E(V) + PV is again a Murnaghan curve with V1 = V0 (1 + B0' P/B0)^(-1/B0'), B1 = B0 + B0' P
+    for n in range(12 if thorough else 4):
+        E0, B0, Bp, V0 = rand_params(rng)
+        pg = rng.uniform(15.0, 40.0) if n % 2 == 0 else -0.5 * B0 * units.EVAngstromToGPa / Bp * rng.uniform(0.2, 0.5)
+        pe = pg / units.EVAngstromToGPa
+        V1 = V0 * (1 + Bp * pe / B0) ** (-1.0 / Bp)
+        B1 = B0 + Bp * pe
+        nv = rng.randint(6, 12)
+        width = 0.2 * V0
+        margin = rng.uniform(0.02, 0.10) * width
+        vs = np.linspace(V1 + margin, V1 + margin + width, nv) if V1 < V0 else np.linspace(V1 - margin - width, V1 - margin, nv)
+        en = ref_eos("murnaghan", vs, E0, B0, Bp, V0)
+        E1 = float(ref_eos("murnaghan", V1, E0, B0, Bp, V0)) + pe * V1
+        bm = BulkModulus(vs.copy(), en.copy(), pressure=pg, eos="murnaghan")
+        pe_, pb_, pbp_, pv_ = bm.get_parameters()
+        case = dict(eos="murnaghan", E0=E0, B0=B0, Bp=Bp, V0=V0, pressure_GPa=pg, volumes=vs.tolist(), expected=dict(E=E1, B=B1, Bp=Bp, V=V1))
+        if (abs(pv_ / V1 - 1) > 1e-9 or abs(pe_ - E1) > 1e-9 * max(1.0, abs(E1)) or abs(pb_ / B1 - 1) > 1e-7 or abs(pbp_ - Bp) > 1e-6) and not same_as_reference(
+                "murnaghan", vs, en + vs * pe, (pe_, pb_, pbp_, pv_)):
+            run.violation("BulkModulus", "recovery-pressure-outside-grid",
+                          "at %.3g GPa: fitted (E, B, B', V) = (%r, %r, %r, %r), closed form (%r, %r, %r, %r)" % (pg, pe_, pb_, pbp_, pv_, E1, B1, Bp, V1), case)
+        run.case(("murnaghan-pressure", E0, B0, Bp, V0, pg, vs.tobytes()), nontrivial=True)
+        run.count("fit murnaghan under pressure, minimum outside the grid")
+        run.count("oracle-fit", section="oracle")
+
     # ---------------------------------------------------------------- QHA
     nq = 8000 if thorough else 40
     qcases = []
-    for _ in range(nq):
-        c = gen_qha_case(rng, thorough)
+    specs = [(k_, side) for k_ in KINDS for side in ("below", "above")]
+    specs += [(None, rng.choice([None, None, None, None, None, "below", "above"])) for _ in range(nq)]
+    for (k_, side) in specs:
+        c = gen_qha_case(rng, thorough, kind=k_, outside=side)
         fph = build_inputs(c, units)
         c["as_view"] = rng.random() < 0.4
         arrs = caller_arrays(c, fph, as_view=c["as_view"])
@@ -301,7 +399,7 @@ def main(run):
         lines.append("bulkgpa %d %s" % (num, fbs(Q._equiv_parameters[:, 1])))
         meta.append(("bulkgpa", (c, np.array(Q._equiv_bulk_modulus))))
         qcases.append((c, fph, qha))
-        info = dict(eos=c["kind"], nt=nt, nv=nv, pressure=c["pressure"], el_shape=c["shape"], t_max=c["tmax"], t_max_kind=c["tmax_sel"],
+        info = dict(eos=c["kind"], nt=nt, nv=nv, pressure=c["pressure"], el_shape=c["shape"], t_max=c["tmax"], t_max_kind=c["tmax_sel"], equilibrium_volume=c["outside"] or "inside",
                     temperatures=c["temps"].tolist(), volumes=c["vols"].tolist())
         c["info"] = info
         run.count("caller arrays: " + ("strided views" if c["as_view"] else "own ndarrays"))
@@ -329,22 +427,47 @@ def main(run):
         run.count("pressure " + ("None" if c["pressure"] is None else "0" if c["pressure"] == 0 else "+" if c["pressure"] > 0 else "-"))
         run.count("electronic (%s)" % c["shape"])
         run.count("t_max " + c["tmax_sel"])
+        run.count("equilibrium volume " + ("inside the volume grid" if c["outside"] is None else c["outside"] + " the volume grid"))
         run.sample({k: v for k, v in info.items() if k not in ("temperatures", "volumes")})
 
         # ---- oracle on the implementation: recovery of the known parameters
         L = len(qha.volume_temperature)
         Vk, Ek, Bk = c["pars"]["V0"], c["pars"]["E0"], c["pars"]["B0"] * units.EVAngstromToGPa
         site = "PhonopyQHA"
-        vt, gt, bt = np.array(qha.volume_temperature), np.array(qha.gibbs_temperature), np.array(qha.bulk_modulus_temperature)
-        errV = float(np.abs(vt / Vk[:L] - 1).max())
-        errG = float(np.abs(gt - Ek[:L]).max())
-        errB = float(np.abs(bt / Bk[:L] - 1).max())
+        # all fitted points, including the last one that only serves as right neighbour of the finite differences
+        vt, gt, bt = np.array(qha._qha._equiv_volumes), np.array(qha._qha._equiv_energies), np.array(qha._qha._equiv_bulk_modulus)
+        nfit_ = len(vt)
+        errV = float(np.abs(vt / Vk[:nfit_] - 1).max())
+        errG = float(np.abs(gt - Ek[:nfit_]).max())
+        errB = float(np.abs(bt / Bk[:nfit_] - 1).max())
+        if not (np.array_equal(vt[:L], np.array(qha.volume_temperature)) and np.array_equal(gt[:L], np.array(qha.gibbs_temperature)) and np.array_equal(bt[:L], np.array(qha.bulk_modulus_temperature))):
+            run.violation(site, "public-slices", "volume/gibbs/bulk_modulus_temperature are not the leading part of the fitted arrays", info)
         run.cov["oracle"]["max recovery error V (rel)"] = max(run.cov["oracle"].get("max recovery error V (rel)", 0.0), errV)
         run.cov["oracle"]["max recovery error G (eV)"] = max(run.cov["oracle"].get("max recovery error G (eV)", 0.0), errG)
         run.cov["oracle"]["max recovery error B (rel)"] = max(run.cov["oracle"].get("max recovery error B (rel)", 0.0), errB)
+        nonconv = False
         if errV > 1e-9 or errG > 1e-9 * max(1.0, float(np.abs(Ek).max())) or errB > 1e-7:
-            run.violation(site, "recovery" + ("-pressure" if c["pressure"] else ""),
+            fes = np.array(qha._qha._free_energies)
+            pars_impl = np.array(qha._qha._equiv_parameters)
+            bad_t = [i_ for i_ in range(len(pars_impl))
+                     if abs(pars_impl[i_][3] / Vk[i_] - 1) > 1e-9 or abs(pars_impl[i_][1] * units.EVAngstromToGPa / Bk[i_] - 1) > 1e-7 or abs(pars_impl[i_][0] - Ek[i_]) > 1e-9 * max(1.0, abs(Ek[i_]))]
+            nonconv = len(bad_t) > 0 and all(same_as_reference(c["kind"], c["vols"], fes[i_], pars_impl[i_]) for i_ in bad_t)
+        if nonconv:
+            run.count("leastsq itself does not converge to the exact parameters (reference algorithm agrees with the implementation)", section="oracle")
+            run.violation("EOSFit.fit (scipy.optimize.leastsq)", "exact-data-spurious-stationary-point",
+                          "QHA fit at temperature indices %r stops where an independent leastsq run from the documented start stops: rel V %.3g, G %.3g eV, rel B %.3g" % (bad_t[:6], errV, errG, errB), info)
+            continue
+        if errV > 1e-9 or errG > 1e-9 * max(1.0, float(np.abs(Ek).max())) or errB > 1e-7:
+            run.violation(site, "recovery" + ("-pressure" if c["pressure"] else "") + ("-outside-grid" if c["outside"] else ""),
                           "fitted V(T), G(T), B(T) differ from the parameters of the generating EOS: rel V %.3g, G %.3g eV, rel B %.3g" % (errV, errG, errB), info)
+        if c["pressure"] is None and c["shape"] == "V":
+            be, bb, bbp, bv = qha.get_bulk_modulus_parameters()
+            eE0, eB0, eBp, eV0 = c["el_params"]
+            if (abs(bv / eV0 - 1) > 1e-9 or abs(be - eE0) > 1e-9 * max(1.0, abs(eE0)) or abs(bb / eB0 - 1) > 1e-7 or abs(bbp - eBp) > 1e-6) and not same_as_reference(
+                    c["kind"], c["vols"], c["el"], (be, bb, bbp, bv)):
+                run.violation("BulkModulus", "recovery" + ("-outside-grid" if c["outside"] else ""),
+                              "BulkModulus parameters (%r, %r, %r, %r) differ from those of the generating EOS (%r, %r, %r, %r)" % (be, bb, bbp, bv, eE0, eB0, eBp, eV0), info)
+            run.count("oracle-bulk-modulus", section="oracle")
         # thermal expansion and C_P against the documented finite differences of the KNOWN V(T), G(T)
         T = c["temps"]
         beta_k = [0.0] + [(Vk[i + 1] - Vk[i - 1]) / (T[i + 1] - T[i - 1]) / Vk[i] for i in range(1, L)]
@@ -383,7 +506,7 @@ def main(run):
         run.count("oracle-recovery", section="oracle")
 
     # physical sign of the pressure term, (V) vs (T,V) with identical rows, t_max independence of the common prefix
-    for (c, fph, qha) in qcases[: (1200 if thorough else 10)]:
+    for (c, fph, qha) in [q_ for q_ in qcases if q_[0]["outside"] is None][: (1200 if thorough else 10)]:
         c0 = dict(c, pressure=None)
         fph0 = build_inputs(c0, units)  # total energy is the EOS itself when no pressure is applied
         base = run_qha(c0, fph0, pressure=None, tmax=None)
